@@ -11,6 +11,7 @@
 #include <cstdlib>
 #include <cstring>
 #include <new>
+#include <malloc.h>
 
 #ifndef MAP_FIXED_NOREPLACE
 #define MAP_FIXED_NOREPLACE 0x100000
@@ -183,14 +184,25 @@ void *operator new(size_t n, const std::nothrow_t &) noexcept
   }
 }
 void *operator new[](size_t n, const std::nothrow_t &t) noexcept { return operator new(n, t); }
+// optional observer of freed blocks (the PAR engine's race detector drops its shadow cells)
+void (*sim_layout_free_hook)(void *, size_t) = nullptr;
+
 void operator delete(void *p) noexcept
 {
   if (!p)
     return;
   if (in_arena(p))
+  {
+    if (sim_layout_free_hook)
+      sim_layout_free_hook(p, (static_cast<header *>(p) - 1)->size);
     arena_free(p);
+  }
   else
+  {
+    if (sim_layout_free_hook)
+      sim_layout_free_hook(p, malloc_usable_size(p));
     free(p);
+  }
 }
 void operator delete[](void *p) noexcept { operator delete(p); }
 void operator delete(void *p, size_t) noexcept { operator delete(p); }
